@@ -1282,7 +1282,8 @@ class Evaluator:
         if isinstance(a, NoneV) or isinstance(b, NoneV):
             return isinstance(a, NoneV) and isinstance(b, NoneV)
         if isinstance(a, BoolV) and isinstance(b, BoolV):
-            return a.b == b.b
+            # True / False are singletons, and so are numpy.True_ / numpy.False_ -- but numpy.True_ is not True
+            return a.b == b.b and bool(getattr(a, "np", False)) == bool(getattr(b, "np", False))
         if isinstance(a, BoolV) or isinstance(b, BoolV):
             return False
         if isinstance(a, ClassV) and isinstance(b, ClassV):
@@ -1349,6 +1350,11 @@ class Evaluator:
             return a.ci is b.ci
         if isinstance(a, BoolV) and isinstance(b, BoolV):
             return a.b == b.b
+        if isinstance(a, SliceV) and isinstance(b, SliceV):
+            # slice(a, b, c) == slice(a', b', c') compares the three fields
+            return self.equal_vals(TupleV([a.start, a.stop, a.step]), TupleV([b.start, b.stop, b.step]))
+        if isinstance(a, SliceV) != isinstance(b, SliceV) and isinstance(a if not isinstance(a, SliceV) else b, (Num, StrV, NoneV, BoolV, TupleV, ListV)):
+            return False
         return None
 
     def contains(self, container, item, node, fr):
